@@ -97,6 +97,21 @@ def make_modes(ctx):
     # several files to standard output in one invocation: a file aborted half-way must not leak state into the next one
     m.append(Mode("decompress-stdout-multi", ["-dc"], [F("p1.xz", None, xzc(tail_sparse, preset=1), tail_sparse),
                                                           F("p2.xz", None, xzc(exact, preset=1), exact)], direction="d", stdout=True))
+    # verbosity x per-file outcome x several files: a file that fails BEFORE producing output (27 bytes: inside the first
+    # Block Header), one that fails late, then good files; progress messages on (-v / -vv) or everything off (-q)
+    good2 = gen_text(rng, 12000)
+    early = dict(F("e1.xz", "e1", comp[:27], plain), valid=False)
+    late = dict(F("e2.xz", "e2", comp[:len(comp) * 2 // 3], plain), valid=False)
+    gfiles = [F("g1.xz", "g1", xzc(small[0], preset=1), small[0]), F("g2.xz", "g2", xzc(good2, preset=1), good2)]
+    m.append(Mode("decompress-multi-earlyfail-v", ["-d", "-v"], [early] + gfiles, direction="d"))
+    m.append(Mode("compress-multi-v", ["-v"], [F("v%d" % i, "v%d.xz" % i, small[i], small[i]) for i in range(3)]))
+    if not quick:
+        m.append(Mode("decompress-multi-fail-vv", ["-d", "-vv"], [late, early] + gfiles, direction="d"))
+        m.append(Mode("decompress-multi-fail-q", ["-d", "-q"], [early, late] + gfiles, direction="d"))
+        m.append(Mode("decompress-multi-fail-default", ["-d"], [early, late] + gfiles, direction="d"))
+        m.append(Mode("compress-multi-vv", ["-vv"], [F("w%d" % i, "w%d.xz" % i, small[i], small[i]) for i in range(3)]))
+        m.append(Mode("decompress-stdout-multi-v", ["-dc", "-v"], [dict(F("q1.xz", None, comp[:27], plain), valid=False),
+                                                                  F("q2.xz", None, xzc(exact, preset=1), exact)], direction="d", stdout=True))
     # invalid input whose valid part ends EXACTLY on an 8 KiB read boundary (avail_in == 0 and not yet EOF when
     # LZMA_STREAM_END arrives: only the extra one-byte io_read() of coder_normal() sees the trailing bytes)
     mk_alone = lambda d: lzma.compress(d, format=lzma.FORMAT_ALONE, preset=1)
@@ -259,6 +274,22 @@ def direct_oracle(mode, plan, res, ref_events):
                 if op == "unlink" and mode.force and e != 2 and tgt_is_dst and not any(
                         o["op"] == "open" and o["name"] == nm and o["k"] < r["k"] for o in obs):
                     hard = True   # the unlink of --force before creating the target
+    # signal-mask discipline (schedule independent): xz blocks the signals it hooks exactly inside io_open_src /
+    # io_open_dest / io_close and while printing; every read/write/poll of the coding loop runs with all of them
+    # unblocked, every open/fstat/attribute/sync/close/unlink call with all of them blocked. A block that is not undone
+    # on some path (signals_block_count is a counter) leaves them blocked for the rest of the process: a later
+    # termination signal then stays pending, xz goes on converting and deleting files.
+    for r in obs:
+        b = r.get("blk")
+        if b is None:
+            continue
+        if r["op"] in ("read", "write", "poll") and b != 0:
+            bad.append("call #%d %s runs with hooked signals blocked (mask %#x): signals_block()/signals_unblock() are not balanced" % (r["k"], r["op"], b))
+            break
+        if r["op"] in ("open", "fstat", "fchown", "fchmod", "futimens", "fsync", "close", "unlink", "stat", "lstat") \
+                and r["name"] not in ("<stdin>", "<stdout>") and b != 0x3f:
+            bad.append("call #%d %s runs with hooked signals unblocked (mask %#x)" % (r["k"], r["op"], b))
+            break
     # multi-file runs: which files were hit by an injection (None = cannot tell: directory, stdout)
     hit = set()
     for op, nm, i_, r in inj:
